@@ -522,6 +522,9 @@ class Canon:
             defs = assigned_names(f).get(e.id, [])
             if len(defs) == 1 and isinstance(defs[0], ast.Assign) and isinstance(defs[0].value, ast.ListComp):
                 return self.seq_parts(defs[0].value, frame)
+            if len(defs) == 1 and isinstance(defs[0], ast.Assign) and len(defs[0].targets) == 1 and isinstance(
+                    defs[0].value, ast.Name) and defs[0].value.id != e.id:
+                return self.seq_parts(defs[0].value, frame)     # a second name for the list
             if not defs or not all(isinstance(d, ast.Assign) and isinstance(d.value, ast.List)
                                    and not d.value.elts for d in defs):
                 return None
